@@ -149,4 +149,5 @@ MUTANTS = [
     ("c05-notify-only-when-full", "C05", [(Q, 1, "        // Signal that queue has space\n        self.not_full.notify_one();", "        if inner.current_size + priority_item.size >= self.capacity_bytes {\n            self.not_full.notify_one();\n        }")], "fire", "C05-T6"),
     ("c14-part-check-sum", "C14", [(R, 1, "if offset > data_end || size > data_end - offset {", "if offset + size > data_end {")], "fire", "C14-AUDIT"),
     ("c20-dir-strict", "C20", [(K, 1, "            self.kmer_dir <= self.kmer_rc", "            self.kmer_dir < self.kmer_rc")], "fire", "C20-K1"),
+    ("c05-swap-worker-args", "C05", [(A, 1, "                    group_counter,\n                    raw_group_counter,\n                    reference_sample_name,", "                    raw_group_counter,\n                    group_counter,\n                    reference_sample_name,")], "fire", "C05-T4"),
 ]
